@@ -10,16 +10,16 @@ import (
 // OSProfile selects what the hand-made (Cluster)ObjectSet scenario family varies.
 type OSProfile struct {
 	MaxSets      int
-	Preexisting  int  // chance (x/10) that a pool object pre-exists in a generated ownership state
-	Lifecycle    bool // pause / archive / delete / orphan-delete user operations
-	Violations   bool // preflight violators
-	Delegation   bool // phases with class default (and hosted-cluster when cfg.Hosted)
+	Preexisting  int    // chance (x/10) that a pool object pre-exists in a generated ownership state
+	Lifecycle    bool   // pause / archive / delete / orphan-delete user operations
+	Violations   bool   // preflight violators
+	Delegation   bool   // phases with class default (and hosted-cluster when cfg.Hosted)
 	Intruder     string // "", "boundary", "granular"
-	Finalizers   bool // intruder may put blocking finalizers on managed objects
-	ForceCluster int  // 0 draw, 1 namespaced, 2 cluster-scoped
-	LateCreate   bool // some sets are created by user operations during the run
-	NeverReady   bool // some workloads never become ready / stay stale
-	NoForge      bool // third parties never forge ownership by one of the generated sets
+	Finalizers   bool   // intruder may put blocking finalizers on managed objects
+	ForceCluster int    // 0 draw, 1 namespaced, 2 cluster-scoped
+	LateCreate   bool   // some sets are created by user operations during the run
+	NeverReady   bool   // some workloads never become ready / stay stale
+	NoForge      bool   // third parties never forge ownership by one of the generated sets
 }
 
 const (
@@ -149,82 +149,9 @@ func GenOS(w *World, prof OSProfile) *Scenario {
 			}
 		}
 		g.ExpRev[name] = maxPrev + 1
-		// phases
-		nPh := 1 + s.Intn(3, "nPhases")
-		used := map[int]bool{}
-		var phases []any
-		for pi := 0; pi < nPh; pi++ {
-			ph := map[string]any{"name": phaseName(pi)}
-			if prof.Delegation {
-				opts := []int{6, 3, 0}
-				if w.Cfg.Hosted {
-					opts[2] = 3
-				}
-				switch s.Weighted(opts, "phase-class") {
-				case 1:
-					ph["class"] = "default"
-				case 2:
-					ph["class"] = "hosted-cluster"
-				}
-			}
-			nObj := 1 + s.Intn(3, "nObjects")
-			var objs []any
-			for oi := 0; oi < nObj; oi++ {
-				idx := s.Intn(len(g.Pool), "pool-idx")
-				if used[idx] {
-					continue
-				}
-				used[idx] = true
-				p := g.Pool[idx]
-				explicit := ""
-				if g.Cluster {
-					explicit = nsMain
-				} else if s.Chance(1, 4, "explicit-ns") {
-					explicit = nsMain
-				}
-				variant := 1
-				if s.Chance(1, 3, "variant") {
-					variant = 1 + i
-				}
-				entry := map[string]any{"object": mkObject(p, variant, explicit)}
-				switch s.Weighted([]int{6, 2, 2}, "collision-protection") {
-				case 1:
-					entry["collisionProtection"] = "IfNoController"
-				case 2:
-					entry["collisionProtection"] = "None"
-				}
-				objs = append(objs, entry)
-			}
-			if len(objs) == 0 {
-				continue
-			}
-			ph["objects"] = objs
-			phases = append(phases, ph)
-		}
-		if len(phases) == 0 {
-			p := g.Pool[0]
-			explicit := ""
-			if g.Cluster {
-				explicit = nsMain
-			}
-			phases = []any{map[string]any{"name": phaseName(0), "objects": []any{map[string]any{"object": mkObject(p, 1, explicit)}}}}
-		}
-		// probes
-		var probes []any
-		for pi, p := range probePool {
-			if s.Chance(2, 3, "probe-"+strconv.Itoa(pi)) {
-				probes = append(probes, store.Copy(p))
-			}
-		}
-		spec := map[string]any{"phases": phases}
-		if len(probes) > 0 {
-			spec["availabilityProbes"] = probes
-		}
+		spec := genTemplateSpec(w, g, prof, i)
 		if len(prev) > 0 {
 			spec["previous"] = prev
-		}
-		if s.Chance(1, 6, "success-delay") {
-			spec["successDelaySeconds"] = int64(5 + s.Intn(60, "delay"))
 		}
 		o := store.Obj{"apiVersion": PKOGroup + "/" + PKOVer, "kind": g.Kind, "metadata": map[string]any{"name": name}, "spec": spec}
 		if !g.Cluster {
@@ -367,4 +294,84 @@ func describeSet(o store.Obj) string {
 		out += fmt.Sprintf(" previous=%v", prev)
 	}
 	return out
+}
+
+// genTemplateSpec draws phases, probes and success delay of one set/template.
+func genTemplateSpec(w *World, g *OSGen, prof OSProfile, i int) map[string]any {
+	s := w.Scn
+	// phases
+	nPh := 1 + s.Intn(3, "nPhases")
+	used := map[int]bool{}
+	var phases []any
+	for pi := 0; pi < nPh; pi++ {
+		ph := map[string]any{"name": phaseName(pi)}
+		if prof.Delegation {
+			opts := []int{6, 3, 0}
+			if w.Cfg.Hosted {
+				opts[2] = 3
+			}
+			switch s.Weighted(opts, "phase-class") {
+			case 1:
+				ph["class"] = "default"
+			case 2:
+				ph["class"] = "hosted-cluster"
+			}
+		}
+		nObj := 1 + s.Intn(3, "nObjects")
+		var objs []any
+		for oi := 0; oi < nObj; oi++ {
+			idx := s.Intn(len(g.Pool), "pool-idx")
+			if used[idx] {
+				continue
+			}
+			used[idx] = true
+			p := g.Pool[idx]
+			explicit := ""
+			if g.Cluster {
+				explicit = nsMain
+			} else if s.Chance(1, 4, "explicit-ns") {
+				explicit = nsMain
+			}
+			variant := 1
+			if s.Chance(1, 3, "variant") {
+				variant = 1 + i
+			}
+			entry := map[string]any{"object": mkObject(p, variant, explicit)}
+			switch s.Weighted([]int{6, 2, 2}, "collision-protection") {
+			case 1:
+				entry["collisionProtection"] = "IfNoController"
+			case 2:
+				entry["collisionProtection"] = "None"
+			}
+			objs = append(objs, entry)
+		}
+		if len(objs) == 0 {
+			continue
+		}
+		ph["objects"] = objs
+		phases = append(phases, ph)
+	}
+	if len(phases) == 0 {
+		p := g.Pool[0]
+		explicit := ""
+		if g.Cluster {
+			explicit = nsMain
+		}
+		phases = []any{map[string]any{"name": phaseName(0), "objects": []any{map[string]any{"object": mkObject(p, 1, explicit)}}}}
+	}
+	// probes
+	var probes []any
+	for pi, p := range probePool {
+		if s.Chance(2, 3, "probe-"+strconv.Itoa(pi)) {
+			probes = append(probes, store.Copy(p))
+		}
+	}
+	spec := map[string]any{"phases": phases}
+	if len(probes) > 0 {
+		spec["availabilityProbes"] = probes
+	}
+	if s.Chance(1, 6, "success-delay") {
+		spec["successDelaySeconds"] = int64(5 + s.Intn(60, "delay"))
+	}
+	return spec
 }
